@@ -1,5 +1,5 @@
 (* C20 - framing and formats.  Statements only. *)
-Require Import FL.Base.Bytes FL.Formats.Formats.
+Require Import FL.Base.Bytes FL.Formats.Formats FL.Formats.JsonFacts.
 Open Scope nat_scope.
 
 Lemma output_seq o e f n start :
@@ -49,7 +49,23 @@ Proof.
     rewrite ?app_nil_r; rewrite <- ?app_assoc; reflexivity.
 Qed.
 
-Check C20_frame. Check C20_text. Check C20_one_timestamp.
+(* serde_json's string escaping can be undone, for every byte string: each field of the JSON line decodes to the
+   value that went in *)
+Theorem C20_json_roundtrip : forall s, Forall is_byte s ->
+  json_unescape (length (json_escape s)) (json_escape s) = Some s.
+Proof. exact unescape_escape. Qed.
+
+(* and the JSON line of a record never contains a byte below 0x20: one record is one line, whatever its texts *)
+Theorem C20_json_single_line : forall ts r,
+  Forall is_byte ts -> Forall is_byte (fr_msg r) ->
+  (forall m, fr_module r = Some m -> Forall is_byte m) -> (forall f, fr_file r = Some f -> Forall is_byte f) ->
+  (forall t, fr_thread r = Some t -> Forall is_byte t) ->
+  forall c, In c (json_line ts r) -> (32 <= c)%N.
+Proof. exact json_line_single_line. Qed.
+
+Check C20_frame. Check C20_text. Check C20_json_roundtrip. Check C20_json_single_line. Check C20_one_timestamp.
 Print Assumptions C20_frame.
 Print Assumptions C20_text.
 Print Assumptions C20_one_timestamp.
+Print Assumptions C20_json_roundtrip.
+Print Assumptions C20_json_single_line.
